@@ -41,6 +41,7 @@ type ceremonyTrace struct {
 	Keys     []*keystore.KeyPair
 	Steps    []traceStep
 	Board    []storage.Message
+	Mnemonic0 string
 	RoundA   string     // first round of a "tworounds" trace
 	Ops      []opRecord // node 0's operations with their genuine results
 	FinalDir string     // node 0's state directory at the end
@@ -56,6 +57,7 @@ type opRecord struct {
 	OpFile     []byte
 	ResultFile []byte
 	BoardLen   int
+	MachDir    string // machine 0's database directory before it handled the operation
 }
 
 var (
@@ -120,7 +122,7 @@ func getTrace(t *testing.T, kind string, n, thr int) (*ceremonyTrace, error) {
 			return
 		}
 		defer w.Close()
-		tr = &ceremonyTrace{Kind: kind, N: n, T: thr, Names: w.Names}
+		tr = &ceremonyTrace{Kind: kind, N: n, T: thr, Names: w.Names, Mnemonic0: w.MnemonicOf(0)}
 		for _, nd := range w.Nodes {
 			tr.Keys = append(tr.Keys, nd.KeyPair)
 		}
@@ -197,11 +199,15 @@ func getTrace(t *testing.T, kind string, n, thr int) (*ceremonyTrace, error) {
 					if err != nil {
 						return done, err
 					}
+					mdir := filepath.Join(base, fmt.Sprintf("mach-%03d", len(tr.Ops)))
+					if err := copyDir(w.Machines[0].Dir, mdir); err != nil {
+						return done, err
+					}
 					res, err := w.Machines[0].Process(file)
 					if err != nil {
 						return done, fmt.Errorf("participant 0 machine: %w", err)
 					}
-					tr.Ops = append(tr.Ops, opRecord{SnapDir: dir, Type: string(op.Type), OpID: op.ID, OpFile: file, ResultFile: res, BoardLen: w.Board.Len()})
+					tr.Ops = append(tr.Ops, opRecord{SnapDir: dir, Type: string(op.Type), OpID: op.ID, OpFile: file, ResultFile: res, BoardLen: w.Board.Len(), MachDir: mdir})
 					if err := w.Nodes[0].SubmitResult(res); err != nil {
 						return done, fmt.Errorf("participant 0 submit: %w", err)
 					}
